@@ -255,7 +255,7 @@ def _gen_run(rng, dtype, w, style, n1=None, n2=None, bs=None, fail=None, delay='
             return [0] * nb
         if mode == 'slow':
             return [rng.choice([3, 4, 5]) for _ in range(nb)]
-        return [rng.choice([0, 0, 1, 2, 3, 4, 5]) for _ in range(nb)]
+        return [rng.choice([0, 0, 0, 1, 1, 2, 3, 4, 5]) for _ in range(nb)]
     if delay == 'rand':
         delay = rng.choice(['rand', 'rand', 'rand', 'zero', 'slow1', 'slow2', 'sync', 'sync'])
     sync = delay == 'sync'
@@ -263,9 +263,9 @@ def _gen_run(rng, dtype, w, style, n1=None, n2=None, bs=None, fail=None, delay='
         delay = 'zero'
     d1 = delays(nb1, 'slow' if delay == 'slow1' else 'zero' if delay in ('zero', 'slow2') else 'rand')
     d2 = delays(nb2, 'slow' if delay == 'slow2' else 'zero' if delay in ('zero', 'slow1') else 'rand')
-    # keep one run below ~0.25 s of injected sleep
+    # keep one run below ~0.12 s of injected sleep
     for d in (d1, d2):
-        while sum(d) > 250:
+        while sum(d) > 120:
             d[rng.randrange(len(d))] = 0
     nts = nt or [rng.choice(NT_CHOICES), rng.choice(NT_CHOICES)]
     return {'set1': set1, 'set2': set2, 'bs': bs, 'bs_mode': bs_mode, 'fail1': fail1, 'fail2': fail2,
@@ -349,7 +349,7 @@ class TTestKind(Kind):
                     last['fail2'] = _nbatches(10, 2) - 1
                 yield c
         # ---- random structure
-        nrand = 130 if q else 1700
+        nrand = 110 if q else 1400
         for i in range(nrand):
             fail = None
             r = rng.random()
